@@ -2,6 +2,7 @@ import Driver.Util
 import NutsModel.C02.Token
 import NutsModel.C02.History
 import NutsModel.C02.Jar
+import NutsModel.C02.Policy
 import NutsModel.Facts.C02
 open Lean Nuts.Drv Nuts.C02 Nuts
 
@@ -224,6 +225,27 @@ def step (st : St) (j : Json) : St × List String :=
       | "state" => present (st.w.states.get t k)
       | "token" => present (st.w.tokens.get t k)
       | o => "bad-store:" ++ o
+    (st, [out])
+  | "polload" =>
+    -- policy/local.go: Configure on a generated directory, then PresentationDefinitions for the probe scopes
+    let entries : List DirEntry := (jArr j "entries").map fun e =>
+      { name := jStr e "name", isDir := jBool e "is_dir",
+        content := if jBool e "ok" then some ((jArr e "scopes").map fun sc => (jStr sc "scope", parseDefs sc "defs")) else none }
+    let dir : DirState := match jStr j "dir" with
+      | "unset" => .unset
+      | "missing-default" => .missingDefault
+      | "present" => .present entries
+      | _ => .unreadable
+    let out := match configurePolicy dir with
+      | .ok pol =>
+        let show1 := fun (scope : String) => match lookupPolicy pol scope with
+          | none => scope ++ "=-"
+          | some defs =>
+            let sorted := (defs.toArray.qsort (fun a b => a.1 < b.1)).toList
+            scope ++ "=" ++ String.intercalate "," (sorted.map fun d => d.1 ++ ":" ++ d.2.id)
+        "ok " ++ String.intercalate " " ((jStrs j "probes").map show1)
+      | .err e => "err:" ++ e
+      | .panic p => "panic:" ++ p
     (st, [out])
   | "advance" => (st, ["advanced"])   -- time is carried by every operation
   | o => (st, ["bad-op:" ++ o])
